@@ -186,6 +186,49 @@ def _lookup(k, env):
     return k
 
 
+def _check_half(h, name, s_terms, p_terms, k, r, L, tag, out, hand_written):
+    """A half returned by split() is itself a reaction: everything that is checked on a constructed reaction
+    holds for it, for ITS OWN forward / reverse orders, and it equals (physically, including the dimension of
+    its zero reverse constant) the irreversible Reaction one would write by hand with constant k."""
+    n, m = R.order(s_terms), R.order(p_terms)
+    df, dr = R.k_dimension(n), R.k_dimension(m)
+    why = []
+    if h.order() != n or h.rorder() != m:
+        why.append("orders %r/%r, expected %d/%d" % (h.order(), h.rorder(), n, m))
+    fd, rd = h.kf_units_dimensions(), h.kr_units_dimensions()
+    if (fd.space, fd.time, fd.quantity) != df or (rd.space, rd.time, rd.quantity) != dr:
+        why.append("k dimensions %s / %s, expected %s / %s" % ((fd.space, fd.time, fd.quantity),
+                                                               (rd.space, rd.time, rd.quantity), df, dr))
+    if why:
+        out.append(("%s:split:%s:%s-half-orders" % (PID, tag, name), "; ".join(why)))
+    for cname, c, dim in (("kf", h.kf, df), ("kr", h.kr, dr)):
+        vals = list(c.values()) if isinstance(c, dict) else [c]
+        bad = [v for v in vals if type(v) is not UnitValue or uq.dim_of(v.units) != dim]
+        if bad:
+            out.append(("%s:split:%s:%s-half-%s-dimension" % (PID, tag, name, cname),
+                        "%s of the %s half is %r; for its own order %d the dimension must be %s"
+                        % (cname, name, c, n if cname == "kf" else m, dim)))
+    for how, K in (("K", h.K), ("equilibrium_constant", h.equilibrium_constant())):
+        if not (K is None or (isinstance(K, dict) and all(v is None for v in K.values()))):
+            out.append(("%s:split:%s:%s-half-%s-not-None" % (PID, tag, name, how), "%s of the %s half (kr = 0) is %r" % (how, name, K)))
+    if not hand_written:     # equation sub-spaces (constants are the default 0): the direct checks above suffice
+        return
+    summed = lambda ts: [(c, l) for l, c in R.summed(ts)]                      # noqa: E731
+    text = R.write(summed(s_terms), summed(p_terms), "single")
+    hand = Reaction(text, kf=k, kr=0, units_system=r.units_system)
+    for cname, a, b in (("kf", h.kf, hand.kf), ("kr", h.kr, hand.kr)):
+        if cname == "kr" and isinstance(a, dict):
+            a = list(a.values())[0] if a else a
+        p = _same_const(a, b)
+        if p:
+            out.append(("%s:split:%s:%s-half-differs-from-hand-written:%s" % (PID, tag, name, cname),
+                        "%s half %s = %r; Reaction(%r, kf=%r, kr=0, same units system) has %r (%s)"
+                        % (name, cname, a, text, k, b, p)))
+    if hand.ssto(L) != h.ssto(L) or hand.psto(L) != h.psto(L):
+        out.append(("%s:split:%s:%s-half-differs-from-hand-written:sides" % (PID, tag, name),
+                    "%s half %s -> %s, Reaction(%r) %s -> %s" % (name, h.ssto(L), h.psto(L), text, hand.ssto(L), hand.psto(L))))
+
+
 def _check_split(r, s_terms, p_terms, L, tag, out, with_constants):
     try:
         pair = r.split()
@@ -202,6 +245,8 @@ def _check_split(r, s_terms, p_terms, L, tag, out, with_constants):
         if not _is_zero_const(fwd.kr) or not _is_zero_const(rev.kr):
             out.append(("%s:split:%s:not-irreversible" % (PID, tag),
                         "kr of the parts: %s, %s" % (fwd.kr, rev.kr)))
+        _check_half(fwd, "forward", s_terms, p_terms, r.kf, r, L, tag, out, with_constants)
+        _check_half(rev, "reverse", p_terms, s_terms, r.kr, r, L, tag, out, with_constants)
         if with_constants:
             p = _same_const(fwd.kf, r.kf)
             if p:
